@@ -22,6 +22,8 @@ from .rules_ast import chain_of
 
 
 def k19_match(ctx, pid: str):
+    from .absint import LibRef as LibRefT
+
     p = ctx.program
     sr = p.get_class("moclo.core._structured.StructuredRecord")
     fi = sr.attrs.get("_match")
@@ -42,11 +44,33 @@ def k19_match(ctx, pid: str):
     from .roles import regex_getter
 
     hooks = {"moclo.regex.DNARegex.search": search_hook, regex_getter(p).qualname: get_regex_hook}
+    # the search may be entered through another method of the pattern class (search_with(record, options) -> _scan(...)):
+    # every method that takes the target and the `linear` flag stands for the search; arguments are read by name
+    for raw_ in rx_cls.attrs.values():
+        if isinstance(raw_, FuncInfo) and raw_.qualname not in hooks:
+            ps_ = [a.arg for a in raw_.node.args.posonlyargs + raw_.node.args.args]
+            if raw_.kind in ("method", "classmethod") and ps_:
+                ps_ = ps_[1:]
+            if "linear" in ps_ and ps_ and ps_[0] in ("string", "target", "record", "sequence", "seq"):
+                def by_name(I, f, args, kwargs, ps=ps_, skip=(raw_.kind in ("method", "classmethod"))):
+                    given = dict(zip(ps, list(args)[1:] if skip else list(args)))
+                    given.update(kwargs)
+                    kw = {k: v for k, v in given.items() if k in ("linear",)}
+                    # a window handed on from the public entry point's defaults is no restriction
+                    for k in ("pos", "endpos"):
+                        v = given.get(k)
+                        if v is not None and not (k == "pos" and v == 0) and not (isinstance(v, int) and v >= 2 ** 31) and not isinstance(v, LibRefT) \
+                                and "maxsize" not in repr(v).lower():
+                            kw[k] = v
+                    return search_hook(I, f, [None, given.get(ps[0])], kw)
+                hooks[raw_.qualname] = by_name
 
-    for topo in (None, "circular", "Circular", "linear"):
+    for topo in (None, "circular", "Circular", "linear", "<CircularRecord>"):
         def make_args(I, topo=topo):
-            rec = circ_record()
-            rec.attrs["annotations"] = {} if topo is None else {"topology": topo}
+            # a plain SeqRecord whose annotation says what it is; a CircularRecord is circular by construction (its
+            # constructor refuses a linear annotation) and is searched circularly whatever the flag says (K2)
+            rec = circ_record() if topo == "<CircularRecord>" else ARec(False, [Piece("W", ZERO, N)], Term("rec"), ctor="input")
+            rec.attrs["annotations"] = {} if topo in (None, "<CircularRecord>") else {"topology": topo}
             obj = AObj(sr, {"record": rec, "seq": ASeq("Seq", rec.pieces)}, name="x")
             I.rec = rec
             return (obj,), {}
@@ -61,7 +85,8 @@ def k19_match(ctx, pid: str):
             out.append(("K19.search-call", name, bool(args) and args[0] is I.rec, "the record itself must be searched, got %r" % (args[:1],)))
             lin = kw.get("linear", args[3] if len(args) > 3 else True)
             want = (topo or "circular").lower() != "circular"
-            # a CircularRecord is searched circularly whatever the flag says (K2); the flag must not claim linear for a circular record
+            if topo == "<CircularRecord>":
+                want = lin  # either flag: the search doubles the text of a CircularRecord regardless (K2)
             out.append(("K19.topology-flag", name, lin is want or lin == want,
                         "linear=%r handed to the search for a record whose topology annotation is %r (expected %r)" % (lin, topo, want)))
             extra = [k for k in kw if k not in ("linear",)] + list(args[1:3])
@@ -176,7 +201,12 @@ def k21_match_overrides(ctx, pid: str):
             return AObj(rx_cls, {}, name="rx")
 
         hooks = dict(FRAG_HOOKS)
-        hooks["moclo.regex.DNARegex.search"] = search_hook
+        from .roles import search_entries, bind_search_args
+
+        for raw_, ps_, skip_ in search_entries(p):
+            # (the stand-in reads the record it is given by name: search(record, ...), _scan(string, pos, endpos, linear))
+            hooks[raw_.qualname] = (lambda I, f, args, kwargs, ps=ps_, skip=skip_:
+                                    search_hook(I, f, [None, bind_search_args(ps, skip, args, kwargs).get(ps[0])], {}))
         from .roles import regex_getter
 
         hooks[regex_getter(p).qualname] = get_regex_hook
@@ -709,6 +739,7 @@ def text_consumers_rule(ctx, rule: str):
         return out
 
     memo = {}
+    tuple_text: Dict[str, set] = {}
 
     def text_names(fi, depth=2, seed=frozenset()):
         """names of fi holding text derived from the target: assigned from str(...), from a helper returning such a
@@ -747,6 +778,14 @@ def text_consumers_rule(ctx, rule: str):
                     for t in tg:
                         if isinstance(t, (ast.Tuple, ast.List)) and isinstance(n.value, (ast.Tuple, ast.List)) and len(t.elts) == len(n.value.elts):
                             pairs.extend(zip(t.elts, n.value.elts))  # a, b = x, y
+                        elif isinstance(t, (ast.Tuple, ast.List)) and isinstance(n.value, ast.Call) and depth > 0:
+                            # data, size = self._target(...): the helper returns a tuple; the positions that hold text
+                            for g in helpers_of(fi, n.value):
+                                text_names(g, depth - 1)
+                                for k_, el in enumerate(t.elts):
+                                    if isinstance(el, ast.Name) and el.id not in text and k_ in tuple_text.get(g.qualname, set()):
+                                        text.add(el.id)
+                                        changed = True
                         else:
                             pairs.append((t, n.value))
                     for t, val in pairs:
@@ -754,6 +793,12 @@ def text_consumers_rule(ctx, rule: str):
                             text.add(t.id)
                             changed = True
         returns_text = any(isinstance(n, ast.Return) and n.value is not None and texty(n.value) for n in ast.walk(fi.node))
+        for n in ast.walk(fi.node):
+            if isinstance(n, ast.Return) and isinstance(n.value, ast.Tuple):
+                pos_ = {k_ for k_, el in enumerate(n.value.elts) if texty(el)}
+                if pos_:
+                    tuple_text.setdefault(fi.qualname, set()).update(pos_)
+                    returns_text = True  # (so that the helper is visited for its own uses of the text)
         memo[mk] = (text, returns_text)
         return memo[mk]
 
@@ -767,8 +812,8 @@ def text_consumers_rule(ctx, rule: str):
         for n in ast.walk(f_.node):
             if isinstance(n, ast.Call):
                 for g in helpers_of(f_, n):
-                    if text_names(g)[1] and g not in todo:
-                        todo.append(g)
+                    if (text_names(g)[1] or text_names(g)[0]) and g not in todo:
+                        todo.append(g)  # returns the text, or derives it from the target itself
     if not any(text_names(f)[0] for f in todo):
         raise AnalysisError("%s: cannot find the text derived from the target" % entry.where())
     def normalised_names(fn_node) -> set:
@@ -877,6 +922,8 @@ def text_consumers_rule(ctx, rule: str):
                             ok = True
                 elif isinstance(par, (ast.BinOp, ast.AugAssign, ast.Subscript, ast.Assign, ast.Return)):
                     ok = True
+                elif isinstance(par, ast.Tuple) and isinstance(parents.get(id(par)), (ast.Return, ast.Assign)):
+                    ok = True  # handed on as an element of a returned / unpacked tuple
                 elif isinstance(par, ast.Attribute) and par.attr in ("upper", "lower"):
                     ok = True
                 elif isinstance(par, (ast.If, ast.While, ast.IfExp, ast.BoolOp)) or (isinstance(par, ast.UnaryOp) and isinstance(par.op, ast.Not)):
@@ -998,8 +1045,14 @@ def order_independence_rule(ctx, rule: str):
         return False
 
     n = 0
+    mgr_node = p.get_class("moclo.core._assembly.AssemblyManager").node
+    inside_mgr = {id(x) for x in ast.walk(mgr_node)}
     for node in ast.walk(m.tree):
         if isinstance(node, ast.Attribute) and node.attr in ("modules", "elements") and isinstance(node.value, ast.Name) and node.value.id == "self" and isinstance(node.ctx, ast.Load):
+            if id(node) not in inside_mgr:
+                # `self.modules` of another class (a report object listing the modules *in insertion order*) is not the list
+                # of supplied modules; what such an object is given is judged where the manager hands it over
+                continue
             par = parents.get(id(node))
             ok = whole(node, par, m)
             n += 1
@@ -1363,6 +1416,16 @@ def consistent_equality_rule(ctx, rule: str, records):
     r.floor(rule, 4)
 
 
+def m_funcs(p):
+    m = p.modules["moclo.core._assembly"]
+    for f in m.functions.values():
+        yield f
+    for ci in m.classes.values():
+        for v in ci.attrs.values():
+            if isinstance(v, FuncInfo):
+                yield v
+
+
 def read_set_rule(ctx, rule: str, records):
     """C19: along the walk a module is read only through its overhang
     accessors and its target; no test depends on anything else."""
@@ -1411,6 +1474,10 @@ def read_set_rule(ctx, rule: str, records):
     from .roles import citation_private_helpers
 
     inside_rewrite = {id(f.node) for f in pair} | {id(f.node) for f in layer_functions(p) if id(f) in citation_private_helpers(p)}
+    entry_ = p.get_func("moclo.core._assembly.AssemblyManager.assemble")
+    init_ = p.get_func("moclo.core._assembly.AssemblyManager.__init__")
+    on_assembly_path = {id(g.node) for e_ in (entry_, init_) for g in reach(p, e_, 8)}
+    known_functions = {id(f.node) for f in list(m_funcs(p))}
     for node in ast.walk(m.tree):
         if isinstance(node, ast.Attribute) and node.attr == "record" and isinstance(node.ctx, ast.Load):
             root, path = chain_of(node)
@@ -1420,6 +1487,10 @@ def read_set_rule(ctx, rule: str, records):
             encl = node
             while encl is not None and not isinstance(encl, (ast.FunctionDef, ast.AsyncFunctionDef)):
                 encl = parents.get(id(encl))
+            if encl is not None and id(encl) not in on_assembly_path and id(encl) in known_functions:
+                # code of the module that assemble() never runs (a dry-run report, a repr): not part of what the property
+                # quantifies over
+                continue
             if encl is not None and id(encl) in inside_rewrite and root == "self" and not any(
                     f.owner is not None and f.owner.name == "AssemblyManager" for f in pair if f.node is encl):
                 # the rewrite pair (or a helper only it runs) living on a small object wrapped around one record: that
